@@ -29,7 +29,7 @@ def _timeouts(draw):
     return {str(t): draw(st.sampled_from([0.13, 0.27, 0.41])) for t in range(4) if draw(st.booleans())}
 
 
-P_MAIN = Profile(timeouts=_timeouts(), raises=0.2, raise_kinds=['VE', 'custom', 'KE', 'RT', 'chain', 'CE', 'CE', 'TO'], dual=0.15, actor_ops=['disp', 'disp', 'disp', 'dispany', 'sleep', 'await', 'yield', 'redisp', 'redisp', 'burst'], maxdepth=[2, 2, 3], wild=0.3)
+P_MAIN = Profile(timeouts=_timeouts(), raises=0.2, raise_kinds=['VE', 'custom', 'KE', 'RT', 'chain', 'CE', 'CE', 'TO'], dual=0.15, actor_ops=['disp', 'disp', 'disp', 'dispany', 'sleep', 'await', 'await', 'yield', 'redisp', 'redisp', 'burst', 'replay'], maxdepth=[2, 2, 3], wild=0.3)
 
 
 def budget(tier):
@@ -58,6 +58,9 @@ def classes(F):
         for r in F.tr:
             if r['k'] == 'redisp' and r.get('ok'):
                 cl.append('redispatch:' + ('after-complete' if r['was_complete'] else r['status']))
+    for r in F.tr:
+        if r['k'] == 'disp' and r.get('replay_of') is not None and r.get('ok'):
+            cl.append('rebuilt-event-dispatched' + (':bus-already-in-its-path' if r['bus'] in (r.get('path') or []) else ':new-bus'))
     if any(h.get('bus2') is not None for h in F.sc['handlers']):
         cl.append('dual-bus-handler')
     if any(h['pat'] == '*' for h in F.sc['handlers']):
